@@ -1590,6 +1590,18 @@ fn c12_jobs(r: &mut Rng, w: &World, thorough: bool) -> Vec<VJob> {
     let mut j = with_shape("targeted:identifiers-longer-than-proofs", Fmt::Legacy, w, s);
     j.muts = vec![Mut::IdentDup(0)];
     jobs.push(j);
+    // ... with a referent of each kind pointing at the surplus identifier
+    for (map, rf) in [("predicates", "p_age"), ("unrevealed_attrs", "a_sex"), ("revealed_attrs", "a_name")] {
+        for at in [1u64, 2] {
+            let mut j = with_shape("targeted:identifiers-longer-than-proofs+referent-at-surplus", Fmt::Legacy, w, s);
+            j.muts = vec![Mut::IdentDup(0), Mut::Reindex(map, rf.to_string(), at)];
+            jobs.push(j);
+        }
+    }
+    // ... and the converse: more sub-proofs than identifiers
+    let mut j = with_shape("targeted:proofs-longer-than-identifiers", Fmt::Legacy, w, s);
+    j.muts = vec![Mut::ProofDup(0)];
+    jobs.push(j);
     let mut j = with_shape("targeted:revealed-and-self-attested+restricted-predicate", Fmt::Legacy, w, s);
     j.verify = s.1.clone().restr("p_age", json!({"schema_name": "gvt"}));
     j.muts = vec![Mut::AddSelf("a_name".into(), "x".into())];
